@@ -750,4 +750,49 @@ theorem trap_total_spec (present : List String) (attr f t x y : String) (h : (at
   rw [lookup_of_mem_nodup trapTable hn attr (f, t, x, y) h]
   simp only [List.contains_iff_mem, Bool.and_eq_true]
 
+/-! ### the `rgb_to_detectors` option of the constructors -/
+
+/-- With a detector mapping, a colour attribute reads the dataset of the detector its colour is mapped to, in the
+    attribute's own group, when the file has it and the empty slice when it has not — never the colour's namesake or
+    any other channel. -/
+theorem attr_mapped_spec (m : List (String × String)) (present : List String) (attr g c d : String)
+    (h : (attr, g, c) ∈ colourTable) (hm : m.lookup c = some d) :
+    attrLookupM m present attr = if (g ++ "/" ++ d) ∈ present then .path (g ++ "/" ++ d) else .empty := by
+  have hn : (colourTable.map (·.1)).Nodup := by decide
+  unfold attrLookupM
+  rw [lookup_of_mem_nodup colourTable hn attr (g, c) h]
+  simp only [hm, List.contains_iff_mem]
+
+/-- Non-vacuity (the file of seeded change C05g-m3: custom detectors and a dataset that happens to be called `Red`). -/
+example : attrLookupM [("Red", "Detector 2"), ("Green", "Detector 3"), ("Blue", "Detector 1")]
+    ["Photon count/Detector 1", "Photon count/Detector 2", "Photon count/Detector 3", "Photon count/Red"]
+    "red_photon_count" = .path "Photon count/Detector 2" := by decide
+
+/-- Not giving the option is the identity mapping: every attribute answers as in `attr_lookup_spec`. -/
+theorem attr_mapped_default (present : List String) (attr : String) :
+    attrLookupM defaultDetectors present attr = attrLookup present attr := by
+  unfold attrLookupM
+  split
+  · rename_i g c hl
+    have hmem := mem_of_lookup_eq_some colourTable attr (g, c) hl
+    have key : ∀ r ∈ colourTable, defaultDetectors.lookup r.2.2 = some r.2.2 ∧
+        attrTable.lookup r.1 = some (r.2.1 ++ "/" ++ r.2.2) := by decide
+    obtain ⟨h1, h2⟩ := key _ hmem
+    simp only at h1 h2
+    rw [h1]
+    unfold attrLookup
+    rw [h2]
+  · rfl
+
+/-- The option concerns the six colour attributes only: force and distance attributes ignore it. -/
+theorem attr_mapped_other (m : List (String × String)) (present : List String) (attr : String)
+    (h : ∀ r ∈ colourTable, r.1 ≠ attr) : attrLookupM m present attr = attrLookup present attr := by
+  unfold attrLookupM
+  split
+  · rename_i g c hl
+    exact absurd rfl (h _ (mem_of_lookup_eq_some colourTable attr (g, c) hl))
+  · rfl
+
+example : ∀ r ∈ colourTable, r.1 ≠ "force1x" := by decide
+
 end Verif.C05
